@@ -227,10 +227,11 @@ def assign_targets(X, ast, ev):
     k = ast[0]
     if k == 'field':
         base = ast[1]
-        # Type.field  (whole field of every object)
-        if base[0] == 'id' and base[1] not in ev.env:
+        # Type.field / pkg.Type.field  (whole field of every object)
+        tn = dotted_name(base)
+        if tn is not None and tn.split('.')[0] not in ev.env:
             try:
-                ty = resolve_type(w, base[1], ev.pkg)
+                ty = resolve_type(w, tn, ev.pkg)
                 if w.prog.kind(ty) == 'struct':
                     return [(('f', ty, ast[2]), None)]
             except SpecError:
@@ -276,6 +277,15 @@ def assign_targets(X, ast, ev):
         if isinstance(v, LValue) and v.kind == 'cell':
             return [(('cell', v.data[0]), v.data[1])]
     raise SpecError('cannot interpret assigns item %r' % (ast,))
+
+
+def dotted_name(ast):
+    if ast[0] == 'id':
+        return ast[1]
+    if ast[0] == 'field':
+        b = dotted_name(ast[1])
+        return None if b is None else b + '.' + ast[2]
+    return None
 
 
 def X_lvalue(ev, ast):
